@@ -171,7 +171,7 @@ func runServerCase(c caseID) caseResult { return runServerCaseV(c, vNormal) }
 
 func runServerCaseV(c caseID, variant string) (res caseResult) {
 	n := len(c.H)
-	tm := schedule(n, c.K, c.Delta, c.spacing())
+	tm := schedule(n, c.K, c.Delta, c.spacing(), c.lag())
 	if tm.onCleanerGrid() {
 		res.HarnessErr = fmt.Sprintf("%v: an event falls on a clean-up pass", c)
 		return
@@ -378,6 +378,21 @@ func runServerCaseV(c caseID, variant string) (res caseResult) {
 		}(); wantOff != clientOffset {
 			res.HarnessErr = fmt.Sprintf("%s: client offset %q, model offset %q", what, clientOffset, wantOff)
 			return
+		}
+		// the client is behind: it presents the offset of an earlier logged packet it was sent
+		for b := 0; b < c.Behind && offsetIdx >= 0; b++ {
+			prev := -1
+			for i := 0; i < offsetIdx; i++ {
+				if model[i].logged && model[i].to[0] {
+					prev = i
+				}
+			}
+			if prev < 0 {
+				res.HarnessErr = fmt.Sprintf("%s: the client cannot be %d packets behind", what, c.Behind)
+				return
+			}
+			offsetIdx = prev
+			clientOffset = model[prev].id
 		}
 		eventsSeenT := 0
 		offsetT, offsetIdxT := "", -1
@@ -673,6 +688,17 @@ func serverScenarios() []srvScenario {
 	for _, d1 := range []time.Duration{time.Second, 61 * time.Second, 119 * time.Second} {
 		for _, d2 := range []string{"59s", "61s", "119s"} {
 			out = append(out, srvScenario{fmt.Sprintf("recover-twice/first-outage=%v/second-outage=%s", d1, d2), caseID{H: short, K: 1, Delta: d1}, vTwice + "+" + d2})
+		}
+	}
+	// a dead peer noticed late and a client that is behind: packets sent before the connection ended are missed
+	// packets too, and they are OLDER than the session. Reconnections late in the window find them expired but
+	// still logged (no clean-up pass in between): a recovered session must get them all the same.
+	lateH := h(t(kAll), b(kR1), t(kS), t(kAll), b(kAll))
+	for _, lag := range []time.Duration{time.Second, 5 * time.Second, 25 * time.Second} {
+		for _, behind := range []int{1, 2} {
+			for _, d := range []time.Duration{time.Second, 61 * time.Second, 115 * time.Second, 119 * time.Second} {
+				out = append(out, srvScenario{fmt.Sprintf("client-behind/%d-packets/connection-ends-%v-late/%v", behind, lag, d), caseID{H: lateH, K: 3, Delta: d, Lag: lag, Behind: behind}, vNormal})
+			}
 		}
 	}
 	bins := h(t(kAll), b(kAll), b(kR1), b(kR2), b(kAll), b(kT), b(kS))
